@@ -269,7 +269,9 @@ void harness(void)
         ov = (s0 <= e0) && (s1 <= e1) && (s0 <= e1) && (s1 <= e0);
       }
       CHECK((stderr_msgs > 0) == ov, "overlap warning exactly when two selected records cover a common address");
+#if CF_R >= 2
       if (ov) WITNESS("overlap");
+#endif
     }
   }
   WITNESS("end");
